@@ -866,6 +866,7 @@ func ecrEntries(message, att []byte) string {
 type Session struct {
 	w         *World
 	headerSet bool
+	envStats  map[string]int // how often each environment variant was in force (evidence only; per session: sessions run concurrently in C18's replays)
 	snaps map[string]map[string]string
 }
 
@@ -892,8 +893,12 @@ var expiredGoCtx, cancelledGoCtx = func() (context.Context, context.Context) {
 	return a, b
 }()
 
-// envStats: how often each environment variant was in force (evidence only; single-threaded in `run`).
-var envStats = map[string]int{}
+func (s *Session) envCount(k string) {
+	if s.envStats == nil {
+		s.envStats = map[string]int{}
+	}
+	s.envStats[k]++
+}
 
 func (s *Session) varyHeader(op Op) {
 	if s.w == nil {
@@ -908,22 +913,22 @@ func (s *Session) varyHeader(op Op) {
 	switch (x >> 56) % 8 {
 	case 0:
 		s.w.ctx = s.w.ctx.WithContext(expiredGoCtx)
-		envStats["env:go-context-deadline-passed/-"]++
+		s.envCount("env:go-context-deadline-passed/-")
 	case 1:
 		s.w.ctx = s.w.ctx.WithContext(cancelledGoCtx)
-		envStats["env:go-context-cancelled/-"]++
+		s.envCount("env:go-context-cancelled/-")
 	default:
 		s.w.ctx = s.w.ctx.WithContext(context.Background())
-		envStats["env:go-context-live/-"]++
+		s.envCount("env:go-context-live/-")
 	}
 	// execution mode: messages are delivered by FinalizeBlock (ExecModeFinalize); the repository's own tests run under the
 	// zero value (ExecModeCheck), so one op in four keeps that.  Nothing in the store depends on the mode, so no result may.
 	if (x>>52)%4 == 0 {
 		s.w.ctx = s.w.ctx.WithExecMode(sdk.ExecModeCheck)
-		envStats["env:exec-mode-zero/-"]++
+		s.envCount("env:exec-mode-zero/-")
 	} else {
 		s.w.ctx = s.w.ctx.WithExecMode(sdk.ExecModeFinalize)
-		envStats["env:exec-mode-finalize/-"]++
+		s.envCount("env:exec-mode-finalize/-")
 	}
 	// a "block" is a run of ops under one header (transactions of one block share height and time, and so do the
 	// messages of one transaction): a new header starts at about one op in four, never inside an open transaction
@@ -931,7 +936,7 @@ func (s *Session) varyHeader(op Op) {
 		return
 	}
 	s.headerSet = true
-	envStats["env:blocks/-"]++
+	s.envCount("env:blocks/-")
 	x >>= 2
 	height := headerHeights[x%uint64(len(headerHeights))]
 	t := time.Unix(headerTimes[(x>>16)%uint64(len(headerTimes))], int64((x>>32)%1000)*1000000).UTC()
